@@ -49,8 +49,9 @@ def _special_lengths():
 def plan(tier, seed):
     units = []
     flavours = ['asan', 'asan-small'] if tier == 'quick' else ['asan', 'asan-small', 'asan-sm3sse']
-    dense = 300 if tier == 'quick' else 1100
-    nchunks = 4 if tier == 'quick' else 8
+    dense = 300 if tier == 'quick' else 4200
+    nchunks = 4 if tier == 'quick' else 16
+    kreps = 1 if tier == 'quick' else 12
     for fl in flavours:
         for alg in ALGS:
             if fl != 'asan' and alg not in ('sm3', 'sha256', 'sha512'):
@@ -61,11 +62,14 @@ def plan(tier, seed):
                 units.append({'kind': 'hash', 'alg': alg, 'flavour': fl, 'lo': c, 'step': nchunks, 'dense': dense,
                               'weight': 2})
             if not alg.startswith('sha512_'):
-                units.append({'kind': 'hmac', 'alg': alg, 'flavour': fl, 'weight': 2})
-        units.append({'kind': 'pbkdf2', 'flavour': fl, 'weight': 2})
-        units.append({'kind': 'hkdf', 'flavour': fl, 'weight': 2})
-        units.append({'kind': 'kdf', 'flavour': fl, 'weight': 1})
-        units.append({'kind': 'sm3digest', 'flavour': fl, 'weight': 1})
+                for rep in range(kreps):
+                    units.append({'kind': 'hmac', 'alg': alg, 'flavour': fl, 'rep': rep, 'weight': 2})
+        for rep in range(kreps):
+            # the units draw key / salt / info / output lengths from the unit's own generator: repetitions are new samples
+            units.append({'kind': 'pbkdf2', 'flavour': fl, 'rep': rep, 'weight': 2})
+            units.append({'kind': 'hkdf', 'flavour': fl, 'rep': rep, 'weight': 2})
+            units.append({'kind': 'kdf', 'flavour': fl, 'rep': rep, 'weight': 1})
+            units.append({'kind': 'sm3digest', 'flavour': fl, 'rep': rep, 'weight': 1})
     if tier == 'quick':
         # one message with bit length >= 2^32 per 32-bit-counter hash, so the length carry is exercised on every change
         for alg in ('sm3', 'sha256', 'sha1'):
